@@ -86,6 +86,13 @@ fn classify(m: &RM, obs: &mut Obs) {
     obs.nontrivial_if(nt);
 }
 
+/// A case judged right after a call on the same thread that the library refused half way.
+#[derive(Clone, Debug, Serialize, Deserialize)]
+pub struct AfterRefusal {
+    pub kind: u8,
+    pub case: Case,
+}
+
 /// message -> payload -> message
 pub fn eval_roundtrip(c: &Case) -> Verdict {
     let lib_msg = c.msg.to_lib();
@@ -298,6 +305,7 @@ pub fn spec() -> PropSpec {
         ],
         checks: vec![
             PropCheck::new("message-to-payload-and-back", |_| (rm_strategy(), gen::edge_u32(), gen::edge_u32()).prop_map(|(msg, ts, msid)| Case { msg, ts, msid }).boxed(), 120_000, 4_000_000, eval_roundtrip),
+            PropCheck::new("message-to-payload-and-back-after-a-refused-call", |_| (1u8..6, rm_strategy(), gen::edge_u32(), gen::edge_u32()).prop_map(|(kind, msg, ts, msid)| AfterRefusal { kind, case: Case { msg, ts, msid } }).boxed(), 20_000, 500_000, |c: &AfterRefusal| { ra::disturb(c.kind); eval_roundtrip(&c.case) }),
             PropCheck::new("reference-body-decodes", |_| {
                 let m = prop_oneof![
                     3 => rm_strategy(),
